@@ -117,8 +117,8 @@ func checkC02(t *testing.T, env *report.Env, rep *report.Report) {
 	var cfgs []cfg
 	if env.Thorough() {
 		cfgs = []cfg{
-			{"two-names-depth6", Alphabet([]string{"a", "b"}, []string{"", "x", "y"}, []uint32{0, 1, 2, 3}, true), 6},
-			{"one-name-depth9", Alphabet([]string{"a"}, []string{"", "x", "y"}, []uint32{0, 1, 2, 3, 4}, false), 9},
+			{"two-names-depth7", Alphabet([]string{"a", "b"}, []string{"", "x", "y"}, []uint32{0, 1, 2, 3}, true), 7},
+			{"one-name-depth10", Alphabet([]string{"a"}, []string{"", "x", "y"}, []uint32{0, 1, 2, 3, 4}, false), 10},
 		}
 	} else {
 		cfgs = []cfg{
@@ -295,7 +295,7 @@ func checkC03(t *testing.T, env *report.Env, rep *report.Report) {
 	depth := 5
 	alpha := Alphabet([]string{"a", "b"}, []string{"", "x", "y"}, []uint32{1, 2, 3}, false)
 	if env.Thorough() {
-		depth = 6
+		depth = 7
 	}
 	fs := &failSet{}
 	sec := rep.Add(&report.Section{Name: fmt.Sprintf("restart-after-every-op-depth%d", depth), Engine: "seqx", Exhaustive: true, Extra: map[string]int64{},
